@@ -3,6 +3,7 @@ package sim
 import (
 	"fmt"
 	"os"
+	"strings"
 	"math/big"
 	"sort"
 
@@ -279,6 +280,25 @@ func (w *World) BuildTx(t *Tx, forCheck bool) *BuiltTx {
 	if t.Granter > 0 {
 		g := w.acct(t.Granter - 1)
 		spec.Granter = g.Bytes
+	} else if t.Granter < 0 {
+		// -1: somebody who granted the payer a fee allowance, if there is one
+		keys := make([]string, 0, len(w.FeeGrants))
+		for k := range w.FeeGrants {
+			keys = append(keys, k)
+		}
+		sort.Strings(keys)
+		for _, k := range keys {
+			if strings.HasSuffix(k, "|"+bt.Payer.Key()) {
+				gk := strings.TrimSuffix(k, "|"+bt.Payer.Key())
+				spec.Granter = w.addrByKey(gk).Bytes
+				bt.Granter = w.addrByKey(gk)
+				w.Class("tx.with-fee-granter")
+				break
+			}
+		}
+	}
+	if t.Granter > 0 {
+		bt.Granter = w.acct(t.Granter - 1)
 	}
 	ctx := w.C.Ctx()
 	if forCheck {
